@@ -199,6 +199,16 @@ func runCheck(o *Options) int {
 		}
 		cs = append(cs, c)
 	}
+	for _, k := range sortedKeys(prog.Types) {
+		c := prog.Types[k]
+		for _, p := range c.Props {
+			if p == o.Property {
+				for _, a := range c.Assumes {
+					cr.assumptions["stated in the "+c.Kind+" block "+shortName(c.Pkg)+"."+c.Name+": "+a] = true
+				}
+			}
+		}
+	}
 	var execs []*Exec
 	var wg sync.WaitGroup
 	sem := make(chan struct{}, 8)
@@ -211,6 +221,9 @@ func runCheck(o *Options) int {
 			fr.Mode = "int"
 		}
 		reports[i] = fr
+		for _, a := range c.Assumes {
+			cr.assumptions["stated in the contract of "+shortName(c.Pkg)+"."+c.Name+": "+a] = true
+		}
 		if c.Trusted != "" {
 			fr.Trusted = c.Trusted
 			fr.Vacuity = "n/a (trusted)"
